@@ -53,8 +53,9 @@ META = {
                   'input-callback tables): config_isolated / config_isolated_run (no operation, in particular no module creation, '
                   'changes what a loaded section shows), recreate_same (a module created from a section after any admissible run - '
                   'other modules from this section or from sections sharing Param objects, a restart - shows what one created now '
-                  'shows, accessibles and module properties), module_description_function (the description is instViews of viewsOf(env) '
-                  'of the class and of the items the section had WHEN IT WAS LOADED), features_function / later_instances_same_features '
+                  'shows, accessibles and module properties), module_description_function / module_mprops_function (the description is '
+                  'instViews of viewsOf(env) of the class - resp. instMSpec of its module properties - and of the items the section had '
+                  'WHEN IT WAS LOADED), features_function / later_instances_same_features '
                   '(features and interface_classes depend on the MRO and the direct bases along it only, whatever was created '
                   'before), control_isolated / inputs_only_by_own_registration / control_calls_isolated (the table of input callbacks '
                   'of a module, and what self_controlled() calls, change by registrations with that module only).  '
